@@ -15,6 +15,7 @@ import json
 import os
 import random
 import re
+import time
 
 from vlib import core, pipeline
 from vlib.core import HarnessError, log
@@ -126,7 +127,9 @@ def run_legs(ctx, P):
         ctx.notes["behaviours_from_tlc"] = ctx.notes.get("behaviours_from_tlc", 0) + len(behs)
 
     trace_path = os.path.join(ctx.work, "trace.ndjson")
+    t0 = time.time()
     pipeline.run_driver(ctx, driver, beh_path, trace_path, n_random)
+    log("driver %s: %.1fs" % (driver.get("run", driver.get("cmd")), time.time() - t0))
     if only_trace is not None:
         keep = [(t, l) for t, l in pipeline.split_traces(trace_path) if t == only_trace]
         pipeline.write_traces(trace_path, keep)
@@ -147,13 +150,24 @@ def run_legs(ctx, P):
         rejected = stats["rejected"]
     else:
         rejects, stats = multi_validate(ctx, tspec, trace_path, chunk=P.get("chunk"))
+        log("validated %d traces / %d events in %.1fs" % (stats["traces"], stats["events"], stats["tlc_wall_s"]))
         rejected = []
         if rejects:
             log("%d trace(s) rejected by %s; re-executing" % (len(rejects), tspec["module"]))
             confirmed = {}
             pending = dict(rejects)
-            for attempt in (1, 2):
-                rej2, _ = multi_validate(ctx, tspec, rerun("rerun%d" % attempt), chunk=P.get("chunk"), tag="rerun%d" % attempt)
+            # re-execute only the rejected traces (same numbers, same inputs); order-dependent outcomes need the
+            # lock-step repetitions to hit the same internal order again, so the repetition count grows
+            for attempt, env2 in enumerate(P.get("rerun_envs", [P.get("rerun_env", {})]), 1):
+                only = os.path.join(ctx.work, "only-%d.json" % attempt)
+                json.dump(sorted(pending), open(only, "w"))
+                d2 = dict(driver)
+                d2["env"] = dict(driver.get("env", {}), VERIF_ONLY_FILE=only, **env2)
+                p2 = os.path.join(ctx.work, "trace-rerun%d.ndjson" % attempt)
+                pipeline.run_driver(ctx, d2, beh_path, p2, n_random)
+                rej2, st2 = multi_validate(ctx, tspec, p2, chunk=P.get("chunk"), tag="rerun%d" % attempt)
+                log("re-execution %d (%s): %d of %d reproduced, validation %.1fs" % (
+                    attempt, env2, sum(1 for t in pending if t in rej2), len(pending), st2["tlc_wall_s"]))
                 for t in list(pending):
                     if t in rej2:
                         confirmed[t] = pending.pop(t)
